@@ -824,14 +824,22 @@ class MinHash(RustObject):
             raise TypeError(
                 "Error: can only calculate containment for scaled MinHashes"
             )
-        denom = len(self)
+        self_mh, other_mh = self, other
+        if downsample and self.scaled != other.scaled:
+            # compare at the common (coarser) resolution, as count_common does
+            scaled = max(self.scaled, other.scaled)
+            self_mh = self.downsample(scaled=scaled)
+            other_mh = other.downsample(scaled=scaled)
+        # refuses incompatible sketches, also when one of them is empty
+        common = self_mh.count_common(other_mh)
+        denom = len(self_mh)
         if not denom:
             return 0.0
         total_denom = float(
-            denom * self.scaled
+            denom * self_mh.scaled
         )  # would be better if hll estimate - see #1798
-        bias_factor = 1.0 - (1.0 - 1.0 / self.scaled) ** total_denom
-        containment = self.count_common(other, downsample) / (denom * bias_factor)
+        bias_factor = 1.0 - (1.0 - 1.0 / self_mh.scaled) ** total_denom
+        containment = common / (denom * bias_factor)
         # debiasing containment can lead to vals outside of 0-1 range. constrain.
         if containment >= 1:
             return 1.0
@@ -886,16 +894,22 @@ class MinHash(RustObject):
             raise TypeError(
                 "Error: can only calculate containment for scaled MinHashes"
             )
-        min_denom = min((len(self), len(other)))
+        self_mh, other_mh = self, other
+        if downsample and self.scaled != other.scaled:
+            # compare at the common (coarser) resolution, as count_common does
+            scaled = max(self.scaled, other.scaled)
+            self_mh = self.downsample(scaled=scaled)
+            other_mh = other.downsample(scaled=scaled)
+        # refuses incompatible sketches, also when one of them is empty
+        common = self_mh.count_common(other_mh)
+        min_denom = min((len(self_mh), len(other_mh)))
         if not min_denom:
             return 0.0
         total_denom = float(
-            min_denom * self.scaled
+            min_denom * self_mh.scaled
         )  # would be better if hll estimate - see #1798
-        bias_factor = 1.0 - (1.0 - 1.0 / self.scaled) ** total_denom
-        max_containment = self.count_common(other, downsample) / (
-            min_denom * bias_factor
-        )
+        bias_factor = 1.0 - (1.0 - 1.0 / self_mh.scaled) ** total_denom
+        max_containment = common / (min_denom * bias_factor)
         # debiasing containment can lead to vals outside of 0-1 range. constrain.
         if max_containment >= 1:
             return 1.0
